@@ -3,6 +3,7 @@
 From Coq Require Import List Bool Arith String.
 Import ListNotations.
 From Lime Require Import Hs.Types Hs.Server Hs.Client Hs.Interop Hs.InteropFacts.
+From Lime Require Base.Res Base.Json Codec.Types Codec.Envelope Codec.EnvelopeFacts Codec.SessionFacts.
 Open Scope string_scope.
 Open Scope list_scope.
 
@@ -51,3 +52,16 @@ Example round_trip_in_process :
   agree 9 (ends_of false 9 sc o cc (play false 9 sc o cc 6 [])) 5 "none" /\
   e_client_established (ends_of true 9 sc o cc (play true 9 sc o cc 6 [])) = false.
 Proof. vm_compute. repeat split; reflexivity. Qed.
+
+(* Why the round-trip request does not cross a JSON connection, in Model A (the codec): a session envelope with an
+   authentication object and no scheme encodes to JSON that the decoder rejects. *)
+Theorem round_trip_request_is_not_decodable :
+  forall cx fuel (s : Codec.Types.session) a j,
+  Codec.EnvelopeFacts.wf_base (Codec.Types.s_env s) = true ->
+  Codec.Types.valid_state (Codec.Types.s_state s) = true ->
+  Codec.EnvelopeFacts.opt_all Codec.EnvelopeFacts.wf_reason (Codec.Types.s_reason s) = true ->
+  Codec.Types.s_auth s = Some a -> Codec.Types.s_scheme s = "" ->
+  Codec.Envelope.encode (Codec.Types.ESes s) = Base.Res.Ok j ->
+  Codec.Envelope.decode_any cx fuel j = Base.Res.Err.
+Proof. exact Codec.SessionFacts.session_with_authentication_but_no_scheme_is_rejected. Qed.
+Print Assumptions round_trip_request_is_not_decodable.
